@@ -79,6 +79,7 @@ type Cluster struct {
 	SlotOf  map[string]string // hash tag -> abstract slot name
 	SlotNum map[string]int    // abstract slot name -> slot number
 	Order   []string          // node names in the order of their lines in the CLUSTER NODES text (nil: creation order)
+	HeadCut int               // where the next "answerhead" cuts its reply (0: in the middle; n > 0: after n bytes; n < 0: n bytes before the end)
 	// TopoText, when set, overrides the CLUSTER NODES text served in auto mode.
 	TopoText func() string
 	tagMu    sync.Mutex
@@ -843,6 +844,15 @@ func (cl *Cluster) Answer(name, kind, cls, to string, raw []byte, part string) b
 			b = cl.replyFor(n, pc, kind, cls, to)
 		}
 		h := len(b) / 2
+		if cl.HeadCut > 0 {
+			h = cl.HeadCut
+		} else if cl.HeadCut < 0 {
+			h = len(b) + cl.HeadCut
+		}
+		cl.HeadCut = 0
+		if h > len(b)-1 {
+			h = len(b) - 1
+		}
 		if h < 1 {
 			h = 1
 		}
